@@ -260,7 +260,9 @@ func reachProblem(cs *carrierSet, c *Carrier, sc *Script, run *Run) string {
 // hangVerdict judges a run that hit the watchdog: parked for good on a script the standard transport completes
 // is a violation (nothing was delivered, no status ever arrived); anything else stays inconclusive.
 func hangVerdict(e *core.Env, prop string, cs *carrierSet, c *Carrier, sc *Script, run *Run, dump string) {
-	if run.Stuck {
+	// (only over HTTP, where scripts are half-duplex and so do not depend on how much a stream buffers; whether
+	// in-process operations terminate is judged by C05, whose programs know which waits are the script's own)
+	if run.Stuck && c.HTTP {
 		if _, ok, _ := execScript(cs.ref, sc, nil); ok {
 			w := witness(run)
 			w["goroutines"] = trunc(dump, 20000)
@@ -341,7 +343,7 @@ func checkC01(e *core.Env) {
 				// a call that ends with an error status: what arrived before is still an intact prefix
 				sc.Ret = Ret{How: "status", Code: 10, Msg: "ends in failure"}
 			}
-			if sc.Kind.ClientStreams() && rr.Intn(5) == 0 {
+			if c.HTTP && sc.Kind.ClientStreams() && rr.Intn(5) == 0 {
 				// a handler that sends its headers first and reads its requests afterwards
 				sc.Handler = append([]Op{{Op: "sendhdr", MD: metadata.MD{"early": {"headers"}}}}, sc.Handler...)
 			}
